@@ -1,1 +1,7 @@
 //! Shared engines (DESIGN.md §4).
+pub mod ars;
+pub mod catalogue;
+pub mod gen_circuit;
+pub mod logged_hash;
+pub mod ref_eval;
+pub mod totality;
